@@ -408,7 +408,9 @@ func RunFragment(rng *lib.Rng, tier string, dir string, sum *lib.Summary) {
 			ri, rv = resCoq(oi, ci), resCoq(ov, cv)
 		}
 		genS := "false"
-		if origin == "gen" || origin == "corpus" {
+		if origin == "gen" || origin == "corpus" || origin == "mut:double-move" || origin == "mut:return-shape" {
+			// these mutations only add a statement / control flow: the mutant stays in the fragment,
+			// so the real checker must not accept what the model's checker rejects
 			genS = "true"
 		}
 		term := "(" + progCoq + ",\n [" + strings.Join(argsCoq, "; ") + "], " + accS + ", " + ri + ", " + rv + ", " + genS + ")"
@@ -434,7 +436,9 @@ func RunFragment(rng *lib.Rng, tier string, dir string, sum *lib.Summary) {
 				continue
 			}
 			if mr.Chance(1, 4) {
-				mutate(mr, q)
+				if second := mutate(mr, q); second != "" && second != name {
+					name = "multi" // two different mutations: may have left the fragment
+				}
 			}
 			runOne(q, "mut:"+name, lib.NewRng(seed+1))
 		}
